@@ -2,6 +2,7 @@ import Flatland.JsonUtil
 import Flatland.C18
 import Flatland.C18Multi
 import Flatland.C18Flat
+import Flatland.C18Joined
 import Flatland.Run.C04
 open Lean Flatland.J
 namespace Flatland.Run.C18
@@ -75,6 +76,50 @@ def parseJoinedOp (name : List Char) (j : Json) : Except String JoinedOp := do
   | "setflat" => return .setFlat (← parsePairs (← fld j "pairs")) name
   | o => throw s!"bad joined op {o}"
 
+/-- the pieces `JoinedString.set` loops over, for the inputs the generic model covers: a list of
+    plain values, a text (split with the element's splitter), None -/
+def joinedPieces (E : Env) (c : JoinedCfg) : Flatland.C04.Input → Option (List Native)
+  | .list xs => xs.mapM fun x => match x with | .leaf n => some n | _ => none
+  | .leaf (.str t) => some ((splitWith E.T c.sp c.sep t).map .str)
+  | .leaf .none => some []
+  | _ => none
+
+/-- the same operation in the member-type-generic model (`Flatland.C18.Joined`), when it covers it -/
+def genericOp (E : Env) (c : JoinedCfg) : JoinedOp → Option (Joined.Op SState)
+  | .set x => (joinedPieces E c x).map .setPieces
+  | .member i x => some (.member i x)
+  | .append x => some (.append x)
+  | .delete i => some (.delete i)
+  | .setFlat .. => none
+
+/-- members and flag of the generic model agree with the concrete one (or the generic model does
+    not cover the operation / both raise) -/
+def genericAgrees (E : Env) (c : JoinedCfg) (s : JoinedState) (o : JoinedOp)
+    (r : Except Flatland.C04.CRaise (JoinedState × Option Bool)) : Bool :=
+  match genericOp E c o with
+  | none => true
+  | some g =>
+    match Joined.step (Joined.scalarMember E c.member) c.prune s g, r with
+    | .ok (ms, fl), .ok (ms', fl') => decide (ms = ms') && decide (fl = fl')
+    | .error _, .error _ => true
+    | _, _ => false
+
+def runJoinedOps (E : Env) (c : JoinedCfg) : JoinedState → List JoinedOp → List Json → Bool → List Json × Bool
+  | _, [], acc, ok => (acc.reverse, ok)
+  | s, o :: rest, acc, ok =>
+    let r := c.step E s o
+    let ok := ok && genericAgrees E c s o r
+    match r with
+    | .ok (s', ret) =>
+      -- `.value` / `.u` through the loop of `str.join` (generic model) — and the recursive join of the scalar model must agree
+      let T := Joined.scalarMember E c.member
+      let v := Joined.value T c.sep s'
+      runJoinedOps E c s' rest
+        (obj [("exc", Json.null), ("ret", retJson ret), ("value", ofText v), ("u", ofText (Joined.u T c.sep s')),
+              ("members", membersJson s')] :: acc)
+        (ok && decide (v = joinedValue c s'))
+    | .error e => ((excObj (craiseName e) :: acc).reverse, ok)
+
 def runJoined (j : Json) : Except String Json := do
   let E ← envOf j
   let cj ← fld j "cfg"
@@ -82,11 +127,8 @@ def runJoined (j : Json) : Except String Json := do
                          prune := ← bfld cj "prune", member := ← parseKind (← fld cj "member") }
   let name ← cfld j "name"
   let ops ← (← afld j "ops").mapM (parseJoinedOp name)
-  let steps := runOps (fun (s : JoinedState) o => match c.step E s o with
-      | .ok (s', ret) => .ok (s', obj [("exc", Json.null), ("ret", retJson ret), ("value", ofText (joinedValue c s')),
-                                      ("members", membersJson s')])
-      | .error e => .error (craiseName e)) excObj [] ops []
-  return obj [("steps", Json.arr steps.toArray)]
+  let (steps, ok) := runJoinedOps E c [] ops [] true
+  return obj [("steps", Json.arr steps.toArray), ("spec_agrees", Json.bool ok)]
 
 def parseSlice (j : Json) : Except String Flatland.PyList.Slice := do
   return ⟨← optOf int (fldD j "start" Json.null), ← optOf int (fldD j "stop" Json.null), ← optOf int (fldD j "step" Json.null)⟩
